@@ -458,6 +458,12 @@ pub fn run(args: &Args) -> Report {
     let mut rep = Report::new();
     let mut rng = Rng::derive(args.seed, 0xC06);
     let mut codes: Vec<u64> = vec![0, 63, 64, 16383, 16384, (1 << 30) - 1, 1 << 30, rv::MAX];
+    // codes that mean something to HTTP/3 / WebTransport themselves are ordinary application codes
+    // on a WebTransport stream and travel like any other: WEBTRANSPORT_SESSION_GONE,
+    // WEBTRANSPORT_BUFFERED_STREAM_REJECTED, H3_NO_ERROR.., QPACK errors, the ends of the reserved
+    // WebTransport application-error range
+    let special: [u64; 10] = [0x170d_7b68, 0x3994_bd84, 0x100, 0x102, 0x10c, 0x110, 0x200, 0x202, 0x52e4_a40f_a8db, 0x52e5_ac98_3162];
+    codes.extend(special);
     for _ in 0..(if args.thorough { 40 } else { 2 }) {
         codes.push(rng.varint62());
     }
